@@ -276,4 +276,377 @@ theorem endBlock_np (env : Env) (k : BlockKind) (s : Col α) (h : NP env s) (hb 
   simp only [Prod.mk.injEq] at e
   exact ⟨h.of_pres (endBlock_inv env k s h.inv) (endBlock_pfAt k s hb) e.1, endBlock_block k s⟩
 
+/-! text -/
+
+theorem inStepTextStep_pres (env : Env) (t : Text) (items : List Item) :
+    Pres (fun s : Col α => (tabs s, s.defineMode)) (inStepTextStep env t items) := by
+  unfold inStepTextStep; pres
+macro_rules | `(tactic| pres_leaf) => `(tactic| with_reducible exact inStepTextStep_pres ..)
+
+theorem inStepText_pres (env : Env) (t : Text) :
+    Pres (fun s : Col α => (tabs s, s.defineMode)) (inStepText env t) := by
+  unfold inStepText; pres
+
+theorem inStepTextStep_block (env : Env) (t : Text) (items : List Item) (s : Col α)
+    (hb : s.block = some (.step items)) : ∃ items', (inStepTextStep env t items s).2.block = some (.step items') := by
+  unfold inStepTextStep
+  simp +instances only [A_bind, A_get, A_ite, A_modify, A_pure, awarn]
+  split
+  · split
+    · exact ⟨items, hb⟩
+    · exact ⟨items, hb⟩
+  · split
+    · exact ⟨_, rfl⟩
+    · exact ⟨_, rfl⟩
+
+theorem inStepText_np (env : Env) (t : Text) (s : Col α) (k : BlockKind) (h : NP env s)
+    (hb : BlockRel s (some k)) : NP env (inStepText env t s).2 ∧ BlockRel (inStepText env t s).2 (some k) := by
+  have e := (inStepText_pres env t).out s
+  simp only [Prod.mk.injEq] at e
+  have hpf : PFAt (inStepText env t) s := by
+    unfold inStepText
+    apply PFAt.bind_get
+    rcases hb with ⟨items, h1, h2⟩ | ⟨b, h1, h2⟩
+    · simp only [h1]; exact (inStepTextStep_pf env t items).pfAt s
+    · simp only [h1]; exact PFAt.modify _ _ rfl
+  refine ⟨h.of_pres (inStepText_inv env t s h.inv) hpf e.1, ?_⟩
+  rcases hb with ⟨items, h1, h2⟩ | ⟨b, h1, h2⟩
+  · obtain ⟨items', hi⟩ := inStepTextStep_block env t items s h1
+    refine Or.inl ⟨items', ?_, h2⟩
+    unfold inStepText
+    simp +instances only [A_bind, A_get, h1]
+    exact hi
+  · refine Or.inr ⟨b ++ t.text, ?_, by rw [e.2]; exact h2⟩
+    unfold inStepText
+    simp +instances only [A_bind, A_get, h1, A_modify]
+
+/-! components in a text buffer (define mode `text`) -/
+
+theorem inTextComponent_pres (input : Str) (ev : Ev α) (buf : Str) :
+    Pres (fun s : Col α => (tabs s, s.defineMode)) (inTextComponent input ev buf) := by
+  unfold inTextComponent; pres
+
+theorem inTextComponent_block (input : Str) (ev : Ev α) (buf : Str) (s : Col α) (hb : s.block = some (.text buf)) :
+    ∃ b, (inTextComponent input ev buf s).2.block = some (.text b) := by
+  rcases (inTextComponent_coreOnly input ev buf).out s with ⟨_, _, _, _, _, _, _, _, _, h | h⟩
+  · exact ⟨buf, h.trans hb⟩
+  · exact h
+
+theorem inTextComponent_pfAt (input : Str) (ev : Ev α) (buf : Str) (s : Col α) (hm : s.defineMode = .text)
+    (sp : Span) (hsp : evSpan ev = some sp) (hok : OnBoundaries input sp) :
+    PFAt (inTextComponent input ev buf) s := by
+  have hsl := sliceBytes_onBoundaries input sp hok
+  unfold inTextComponent
+  cases ev <;> simp only [evSpan, reduceCtorEq, Option.some.injEq] at hsp <;> subst hsp <;> pf_at
+  all_goals (exfalso; simp_all)
+
+/-! components in a step buffer -/
+
+theorem optQuantityOf_isSome (env : Env) (q : Option (Loc (PQuantity α))) (b : Bool) (s : Col α) :
+    (optQuantityOf env q b s).1.isSome = q.isSome := by
+  cases q <;> rfl
+
+theorem optValueOf_isSome (env : Env) (q : Option (Loc (PQValue α))) (s : Col α) :
+    (optValueOf env q s).1.isSome = q.isSome := by
+  cases q <;> rfl
+
+/-- the ingredient `ingredientA` pushes has a quantity exactly when the event has one -/
+theorem ingredientA_last (env : Env) (input : Str) (li : Loc (PIngredient α)) (s : Col α) :
+    ∃ (ings : Array (Ingredient (ScalableValue α))) (ig : Ingredient (ScalableValue α)),
+      (ingredientA env input li s).2.ingredients = ings.push ig ∧
+      ig.quantity.isSome = li.val.quantity.isSome := by
+  unfold ingredientA
+  simp +instances only [A_bind, A_get]
+  generalize hq0 : optQuantityOf env li.val.quantity true s = qq
+  have hq : qq.1.isSome = li.val.quantity.isSome := by rw [← hq0]; exact optQuantityOf_isSome ..
+  unfold ingrBuild
+  simp +instances only [A_bind, A_get, A_pure, A_modify]
+  refine ⟨_, _, rfl, ?_⟩
+  rw [← hq]
+  cases hi : li.val.inter with
+  | some d =>
+    simp only []
+    rcases ingrInter_val li.val _ d qq.2 with hv | ⟨rel, _, hv⟩ <;> rw [hv]
+  | none =>
+    simp only []
+    exact congrArg Option.isSome ((ingrRegular_val env input li _).out qq.2)
+
+theorem cookwareA_last (env : Env) (input : Str) (lc : Loc (PCookware α)) (s : Col α) :
+    ∃ (cws : Array (Cookware (ScalableValue α))) (cw : Cookware (ScalableValue α)),
+      (cookwareA env input lc s).2.cookware = cws.push cw ∧
+      cw.quantity.isSome = lc.val.quantity.isSome := by
+  unfold cookwareA
+  simp +instances only [A_bind, A_get]
+  generalize hq0 : optValueOf env lc.val.quantity s = qq
+  have hq : qq.1.isSome = lc.val.quantity.isSome := by rw [← hq0]; exact optValueOf_isSome ..
+  unfold cwBuild
+  simp +instances only [A_bind, A_get, A_pure, A_modify]
+  refine ⟨_, _, rfl, ?_⟩
+  rw [← hq]
+  exact congrArg Option.isSome ((cwResolve_val env input lc _).out qq.2)
+
+theorem QLinkI.step {env : Env} {s : Col α} (hq : QLinkI s.ingredients s.locIngr)
+    (hloc : s.locIngr.size = s.ingredients.size)
+    (ings : Array (Ingredient (ScalableValue α))) (igr : Ingredient (ScalableValue α)) (li : Loc (PIngredient α))
+    (hsz : ings.size = s.ingredients.size) (hstep : IngrStep env s ings igr)
+    (hig : igr.quantity.isSome = li.val.quantity.isSome) :
+    QLinkI (ings.push igr) (s.locIngr.push li) := by
+  intro idx ig l h1 h2 hqs
+  rw [Array.getElem?_push] at h1 h2
+  by_cases hidx : idx = ings.size
+  · rw [if_pos hidx] at h1
+    rw [if_pos (by omega)] at h2
+    cases h1; cases h2
+    rw [← hig]; exact hqs
+  · rw [if_neg hidx] at h1
+    rw [if_neg (by omega)] at h2
+    rcases hstep with ⟨he, _⟩ | ⟨he, _⟩ | ⟨t, defn, rf, b, hd, _, _, _, _, _, he⟩
+    · rw [he] at h1; exact hq idx ig l h1 h2 hqs
+    · rw [he] at h1; exact hq idx ig l h1 h2 hqs
+    · rw [he, Array.getElem?_setIfInBounds] at h1
+      split at h1
+      · rename_i hti
+        split at h1
+        · cases h1
+          subst hti
+          exact hq _ defn l hd h2 hqs
+        · cases h1
+      · exact hq idx ig l h1 h2 hqs
+
+theorem QLinkC.step {env : Env} {s : Col α} (hq : QLinkC s.cookware s.locCw)
+    (hloc : s.locCw.size = s.cookware.size)
+    (cws : Array (Cookware (ScalableValue α))) (cw : Cookware (ScalableValue α)) (lc : Loc (PCookware α))
+    (hsz : cws.size = s.cookware.size) (hstep : CwStep env s cws cw)
+    (hig : cw.quantity.isSome = lc.val.quantity.isSome) :
+    QLinkC (cws.push cw) (s.locCw.push lc) := by
+  intro idx ig l h1 h2 hqs
+  rw [Array.getElem?_push] at h1 h2
+  by_cases hidx : idx = cws.size
+  · rw [if_pos hidx] at h1
+    rw [if_pos (by omega)] at h2
+    cases h1; cases h2
+    rw [← hig]; exact hqs
+  · rw [if_neg hidx] at h1
+    rw [if_neg (by omega)] at h2
+    rcases hstep with ⟨he, _⟩ | ⟨t, defn, rf, b, hd, _, _, _, _, _, he⟩
+    · rw [he] at h1; exact hq idx ig l h1 h2 hqs
+    · rw [he, Array.getElem?_setIfInBounds] at h1
+      split at h1
+      · rename_i hti
+        split at h1
+        · cases h1
+          subst hti
+          exact hq _ defn l hd h2 hqs
+        · cases h1
+      · exact hq idx ig l h1 h2 hqs
+
+theorem timerA_pres (env : Env) (lt : Loc (PTimer α)) :
+    Pres (fun s : Col α => (tabs s, s.defineMode, s.block)) (timerA env lt) := by
+  unfold timerA; pres
+
+/-- a component inside a step buffer: no panic, the tables stay linked, the buffer stays a step buffer -/
+theorem inStepComponent_np (env : Env) (input : Str) (ev : Ev α) (items : List Item) (s : Col α) (h : NP env s)
+    (hb : s.block = some (.step items)) (hev : EvOK' ev) (hcomp : (evSpan ev).isSome = true) :
+    NP env (inStepComponent env input ev s).2 ∧
+      (∃ items', (inStepComponent env input ev s).2.block = some (.step items')) ∧
+      (inStepComponent env input ev s).2.defineMode = s.defineMode := by
+  have hinv := inStepComponent_inv env input ev items s h.inv hb hev.evOK
+  cases ev with
+  | ingredient li =>
+    obtain ⟨dg, p, ings, igr, h1, h2, h3⟩ :=
+      ingredientA_spec env input li s h.inv.locI h.inv.itab.nonREF_def hev.1
+    have hpf := ingredientA_pfAt env input li s h.inv.locI h.inv.itab h.qI hev
+    obtain ⟨ings', ig', hl1, hl2⟩ := ingredientA_last env input li s
+    unfold PFAt at hpf
+    rw [h1] at hpf hl1
+    obtain ⟨rfl, rfl⟩ := Array.push_eq_push.mp hl1
+    have hblk : (ingredientA env input li s).2.block = s.block := by rw [h1]
+    have e : (inStepComponent env input (.ingredient li) s).2 =
+        { s with diags := dg, panic := p, ingredients := ings.push igr, locIngr := s.locIngr.push li,
+                 block := some (.step (items ++ [.ingredient s.ingredients.size])) } := by
+      unfold inStepComponent
+      simp only [A_bind]
+      rw [pushItem_step' _ items s (ingredientA env input li s).2 hblk hb, h1]
+    rw [e] at hinv ⊢
+    exact ⟨⟨hinv, hpf.trans h.panic, QLinkI.step h.qI h.inv.locI ings igr li h2 h3 hl2, h.qC⟩, ⟨_, rfl⟩, rfl⟩
+  | cookware lc =>
+    obtain ⟨dg, p, cws, cw, h1, h2, h3⟩ := cookwareA_spec env input lc s h.inv.locC h.inv.ctab.nonREF_def
+    have hpf := cookwareA_pfAt env input lc s h.inv.locC h.inv.ctab h.qC
+    obtain ⟨cws', cw', hl1, hl2⟩ := cookwareA_last env input lc s
+    unfold PFAt at hpf
+    rw [h1] at hpf hl1
+    obtain ⟨rfl, rfl⟩ := Array.push_eq_push.mp hl1
+    have hblk : (cookwareA env input lc s).2.block = s.block := by rw [h1]
+    have e : (inStepComponent env input (.cookware lc) s).2 =
+        { s with diags := dg, panic := p, cookware := cws.push cw, locCw := s.locCw.push lc,
+                 block := some (.step (items ++ [.cookware s.cookware.size])) } := by
+      unfold inStepComponent
+      simp only [A_bind]
+      rw [pushItem_step' _ items s (cookwareA env input lc s).2 hblk hb, h1]
+    rw [e] at hinv ⊢
+    exact ⟨⟨hinv, hpf.trans h.panic, h.qI, QLinkC.step h.qC h.inv.locC cws cw lc h2 h3 hl2⟩, ⟨_, rfl⟩, rfl⟩
+  | timer lt =>
+    obtain ⟨dg, p, tm, h1, h2, h3⟩ := timerA_spec env lt s
+    have hpf := (timerA_pf env lt).pfAt s
+    unfold PFAt at hpf
+    rw [h1] at hpf
+    have hblk : (timerA env lt s).2.block = s.block := by rw [h1]
+    have e : (inStepComponent env input (.timer lt) s).2 =
+        { s with diags := dg, panic := p, timers := s.timers.push tm,
+                 block := some (.step (items ++ [.timer s.timers.size])) } := by
+      unfold inStepComponent
+      simp only [A_bind]
+      rw [pushItem_step' _ items s (timerA env lt s).2 hblk hb, h1]
+    rw [e] at hinv ⊢
+    exact ⟨⟨hinv, hpf.trans h.panic, h.qI, h.qC⟩, ⟨_, rfl⟩, rfl⟩
+  | frontMatter _ => cases hcomp
+  | metadata _ _ => cases hcomp
+  | «section» _ => cases hcomp
+  | start _ => cases hcomp
+  | stop _ => cases hcomp
+  | text _ => cases hcomp
+  | error _ => cases hcomp
+  | warning _ => cases hcomp
+
+/-- a component event inside an open step block -/
+theorem inBlockComponent_np (env : Env) (input : Str) (ev : Ev α) (s : Col α) (h : NP env s)
+    (hb : BlockRel s (some .step)) (hev : EvOK' ev) (hcomp : (evSpan ev).isSome = true) (hsp : SpanOK input ev) :
+    NP env (inBlockComponent env input ev s).2 ∧ BlockRel (inBlockComponent env input ev s).2 (some .step) := by
+  have hinv := inBlockComponent_inv env input ev s h.inv hev.evOK
+  rcases hb with ⟨items, h1, -⟩ | ⟨b, h1, h2⟩
+  · have e : inBlockComponent env input ev s = inStepComponent env input ev s := by
+      unfold inBlockComponent
+      simp +instances only [A_bind, A_get, h1]
+    rw [e]
+    obtain ⟨hnp, ⟨items', hi⟩, hd⟩ := inStepComponent_np env input ev items s h h1 hev hcomp
+    exact ⟨hnp, Or.inl ⟨items', hi, rfl⟩⟩
+  · have hm : s.defineMode = .text := by
+      rcases h2 with h2 | h2
+      · cases h2
+      · exact h2
+    have e : inBlockComponent env input ev s = inTextComponent input ev b s := by
+      unfold inBlockComponent
+      simp +instances only [A_bind, A_get, h1]
+    rw [e] at hinv ⊢
+    obtain ⟨sp, hsp'⟩ := Option.isSome_iff_exists.mp hcomp
+    have hpf := inTextComponent_pfAt input ev b s hm sp hsp' (hsp sp hsp')
+    have hpr := (inTextComponent_pres input ev b).out s
+    simp only [Prod.mk.injEq] at hpr
+    obtain ⟨b', hb'⟩ := inTextComponent_block input ev b s h1
+    exact ⟨h.of_pres hinv hpf hpr.1, Or.inr ⟨b', hb', Or.inr (hpr.2.trans hm)⟩⟩
+
+/-- **one event**: under the invariant, an event the bracketing automaton accepts, that is `EvOK'`
+    and whose span lies on character boundaries, sets no panic flag and keeps the invariant -/
+theorem processEvent_np (env : Env) (input : Str) (ev : Ev α) (s : Col α) (o o' : Option BlockKind)
+    (h : NP env s) (hb : BlockRel s o) (hw : wbStep o ev = some o') (hev : EvOK' ev) (hsp : SpanOK input ev) :
+    NP env (processEvent env input ev s).2 ∧ BlockRel (processEvent env input ev s).2 o' := by
+  have hinv := processEvent_inv env input ev s h.inv hev.evOK
+  cases ev with
+  | frontMatter t =>
+    simp only [wbStep, Option.some.injEq] at hw; subst hw
+    simp only [processEvent, A_modify] at hinv ⊢
+    exact ⟨h.frame hinv rfl rfl rfl rfl rfl, hb.congr rfl rfl⟩
+  | warning d =>
+    simp only [wbStep, Option.some.injEq] at hw; subst hw
+    simp only [processEvent, A_modify] at hinv ⊢
+    exact ⟨h.frame hinv rfl rfl rfl rfl rfl, hb.congr rfl rfl⟩
+  | error d =>
+    simp only [wbStep, Option.some.injEq] at hw; subst hw
+    simp only [processEvent] at hinv ⊢
+    exact ⟨h, hb⟩
+  | «section» name =>
+    simp only [wbStep, Option.some.injEq] at hw; subst hw
+    simp only [processEvent, A_modify] at hinv ⊢
+    exact ⟨h.frame hinv rfl rfl rfl rfl rfl, hb.congr rfl rfl⟩
+  | metadata k v =>
+    simp only [wbStep] at hw
+    split at hw
+    · rename_i ho; subst ho
+      simp only [Option.some.injEq] at hw; subst hw
+      simp only [processEvent]
+      exact metadataA_np env k v s h hb
+    · cases hw
+  | start kind =>
+    simp only [wbStep] at hw
+    split at hw
+    · rename_i ho; subst ho
+      simp only [Option.some.injEq] at hw; subst hw
+      simp only [processEvent, A_modify] at hinv ⊢
+      refine ⟨h.frame hinv rfl rfl rfl rfl rfl, ?_⟩
+      by_cases hm : s.defineMode = .text
+      · exact Or.inr ⟨[], by simp [hm], Or.inr hm⟩
+      · cases kind
+        · exact Or.inl ⟨[], by simp [hm], rfl⟩
+        · exact Or.inr ⟨[], by simp [hm], Or.inl rfl⟩
+    · cases hw
+  | stop kind =>
+    simp only [wbStep] at hw
+    split at hw
+    · rename_i ho; subst ho
+      simp only [Option.some.injEq] at hw; subst hw
+      simp only [processEvent]
+      exact endBlock_np env kind s h hb
+    · cases hw
+  | text t =>
+    simp only [wbStep] at hw
+    split at hw
+    · cases hw
+    · simp only [Option.some.injEq] at hw; subst hw
+      cases o with
+      | none => rename_i ho; exact absurd rfl ho
+      | some k =>
+        simp only [processEvent]
+        exact inStepText_np env t s k h hb
+  | ingredient i =>
+    simp only [wbStep] at hw
+    split at hw
+    · rename_i ho; subst ho
+      simp only [Option.some.injEq] at hw; subst hw
+      simp only [processEvent]
+      exact inBlockComponent_np env input _ s h hb hev rfl hsp
+    · cases hw
+  | cookware c =>
+    simp only [wbStep] at hw
+    split at hw
+    · rename_i ho; subst ho
+      simp only [Option.some.injEq] at hw; subst hw
+      simp only [processEvent]
+      exact inBlockComponent_np env input _ s h hb hev rfl hsp
+    · cases hw
+  | timer t =>
+    simp only [wbStep] at hw
+    split at hw
+    · rename_i ho; subst ho
+      simp only [Option.some.injEq] at hw; subst hw
+      simp only [processEvent]
+      exact inBlockComponent_np env input _ s h hb hev rfl hsp
+    · cases hw
+
+/-- the fold: on a well-bracketed stream of `EvOK'` events with spans on boundaries the panic flag
+    stays unset -/
+theorem parseEventsLoop_no_panic (env : Env) (input : Str) (evs : List (Ev α)) (s : Col α) (o : Option BlockKind)
+    (h : NP env s) (hb : BlockRel s o) (hw : WBFrom o evs) (hev : ∀ ev ∈ evs, EvOK' ev) (hsp : SpansOK input evs) :
+    (parseEventsLoop env input evs s).panic = none := by
+  induction evs generalizing s o with
+  | nil =>
+    simp only [parseEventsLoop]
+    split <;> split <;> exact h.panic
+  | cons ev rest ih =>
+    by_cases he : ∃ d0, ev = .error d0
+    · obtain ⟨d0, rfl⟩ := he
+      simp only [parseEventsLoop]
+      exact h.panic
+    · rw [parseEventsLoop_cons_nonerror env input ev rest s he]
+      obtain ⟨o', hw1, hw2⟩ := hw
+      obtain ⟨hnp, hbr⟩ := processEvent_np env input ev s o o' h hb hw1 (hev ev List.mem_cons_self)
+        (hsp ev List.mem_cons_self)
+      exact ih _ o' hnp hbr hw2 (fun e he' => hev e (List.mem_cons_of_mem _ he'))
+        (fun e he' => hsp e (List.mem_cons_of_mem _ he'))
+
+/-- **the analysis never panics on parser-like events** -/
+theorem parseEvents_no_panic (env : Env) (input : Str) (evs : List (Ev α))
+    (hev : ∀ ev ∈ evs, EvOK' ev) (hw : WellBracketed evs) (hsp : SpansOK input evs) :
+    (parseEvents env input evs).panic = none :=
+  parseEventsLoop_no_panic env input evs {} none (NP.init env) rfl hw hev hsp
+
 end Cook
